@@ -852,6 +852,12 @@ func (e *eng) Op(f []string, line string, out *hx.Out) {
 				bad = " !BAD:C19:initialized-iff-no-pending"
 			}
 		}
+		if tag == "P:C04,C03,C09,C01,C02" {
+			tag += ",C05" // what fresh readers and the writer see after commits: no committed write lost
+			if len(f) > 4 && (f[4] == "lu" || f[4] == "ln") {
+				tag += ",C13" // answered by the table's LPM index (lpm_index.go over lpm/trie.go), old snapshots included
+			}
+		}
 		// spec-level oracle (independent Go reference) for queries on the live state
 		if f[1] == "txn" || f[1] == "fresh" {
 			if want, ok := e.ref.query(f[1] == "txn", tab, f[3:]); ok && want != res {
